@@ -2,6 +2,7 @@ let families : (string * (string list -> string)) list = [
   "tlv", Fam_tlv.run;
   "frame", Fam_frame.run;
   "conn", Fam_conn.run;
+  "charac", Fam_charac.run;
   "connw", Fam_connw.run;
   "storage", Fam_storage.run;
   "db", Fam_storage.run_db;
